@@ -33,9 +33,9 @@ const PRE_COLON: &[&str] = &["", " ", "  "];
 const GAP: &[&str] = &[" ", "  ", " \\\n  ", "\\\n "];
 /// What follows the last word of an entry, before the newline.
 const TRAIL: &[&str] = &["", " ", "  "];
-const BETWEEN: &[&str] = &["\n", "\n\n"];
-const LEAD: &[&str] = &["", "\n"];
-const FINAL: &[&str] = &["\n", "", "\n\n"];
+const BETWEEN: &[&str] = &["\n", "\n\n", "\n  \n"];
+const LEAD: &[&str] = &["", "\n", "  \n"];
+const FINAL: &[&str] = &["\n", "", "\n\n", "\n   \n"];
 
 /// The formatting choice points of an abstract depfile, as radices.
 pub fn format_radices(d: &AbstractDepfile) -> Vec<usize> {
